@@ -72,7 +72,7 @@ PROPS = {
     },
     'C09': {
         'units': ['encode', 'layout', 'decode', 'builder', 'bytesio'],
-        'kani': ['read_le','unpack_le','to_le_bytes_spec','pack_roundtrip','common_tables'],
+        'kani': ['read_le','unpack_le','to_le_bytes_spec','pack_roundtrip','common_tables','index_table_loop'],
         'own': {'builder': r'Builder::(compile|compile_from|new_type|new|into_inner|insert_output)$'},
         'level_text': 'Proof: encoder and decoder are verified against one forward-layout specification written from the format description '
                       '(header 3 + type; the three node forms; state byte; sizes nibbles; reverse transition order; index iff more than 32 '
@@ -116,7 +116,7 @@ PROPS = {
     },
     'C12': {
         'units': ['registry', 'builder'],
-        'kani': [],
+        'kani': ['registry_find'],
         'own': {'builder': r'Builder::compile$|BuilderNode|RegistryCell'},
         'level_text': 'Proof of the sharing mechanism: RegistryCache::{entry, promote}, Registry::{entry, hash}, RegistryCell::* and '
                       'BuilderNode::clone_from are verified on their real bodies for every cache geometry: a node that is resident in its row '
